@@ -1879,7 +1879,119 @@ func runnerState(repo string) (string, error) {
 		return "", err
 	}
 	sb.WriteString(vs)
+	pm, err := wkPerMatchStores(fset, rf, ff)
+	if err != nil {
+		return "", err
+	}
+	sb.WriteString(pm)
 	return sb.String(), nil
+}
+
+// wkStoreBefore classifies, for a statement list, whether `store` (exact statement text) occurs as a direct statement
+// in front of the first statement that contains `use`: "always"; assigned (lhs text) somewhere else only: "sometimes";
+// not at all: "never".
+func wkStoreBefore(fset *token.FileSet, list []ast.Stmt, store, lhs, use string) string {
+	for _, st := range list {
+		text := wkSrc(fset, st)
+		if text == store {
+			return "always"
+		}
+		if strings.Contains(text, use) {
+			break
+		}
+	}
+	for _, st := range list {
+		if strings.Contains(wkSrc(fset, st), lhs+" = ") {
+			return "sometimes"
+		}
+	}
+	return "never"
+}
+
+// wkPerMatchStores: the per-match fields of filterParams that a filter / Do() evaluation reads (the current match, the
+// Do() report and suggestion strings, the variable a custom filter is applied to) and whether handleMatch /
+// makeCustomVarFilter store them in front of every evaluation.
+func wkPerMatchStores(fset *token.FileSet, runner, filters *ast.File) (string, error) {
+	hm := wkFindFunc(runner, "rulesRunner", "handleMatch")
+	if hm == nil || len(hm.Type.Params.List) != 2 {
+		return "", fmt.Errorf("rulesRunner.handleMatch not found")
+	}
+	rr := hm.Recv.List[0].Names[0].Name
+	rule, m := hm.Type.Params.List[0].Names[0].Name, hm.Type.Params.List[1].Names[0].Name
+	fp := rr + ".filterParams"
+	res := map[string]string{}
+	// the current match: stored whenever a filter or a Do function is going to run
+	matchStore := fp + ".match = matchData{match: " + m + "}"
+	res["match"] = "never"
+	usesBefore := false
+	for _, st := range hm.Body.List {
+		text := wkSrc(fset, st)
+		if text == matchStore || text == "if "+rule+".filter.fn != nil || "+rule+".do != nil { "+matchStore+" }" {
+			if !usesBefore {
+				res["match"] = "always"
+			}
+			break
+		}
+		if strings.Contains(text, rule+".filter.fn(") || strings.Contains(text, "quasigo.Call(") {
+			usesBefore = true
+		}
+	}
+	if res["match"] == "never" && strings.Contains(wkSrc(fset, hm.Body), fp+".match = ") {
+		res["match"] = "sometimes"
+	}
+	// the Do() strings: cleared in front of the call of the Do function
+	res["reportString"], res["suggestString"] = "never", "never"
+	foundDo := false
+	for _, st := range hm.Body.List {
+		ifs, ok := st.(*ast.IfStmt)
+		if !ok || wkSrc(fset, ifs.Cond) != rule+".do != nil" || !strings.Contains(wkSrc(fset, ifs.Body), "quasigo.Call(") {
+			continue
+		}
+		foundDo = true
+		for _, f := range []string{"reportString", "suggestString"} {
+			res[f] = wkStoreBefore(fset, ifs.Body.List, fp+"."+f+" = \"\"", fp+"."+f, "quasigo.Call(")
+		}
+	}
+	if !foundDo {
+		return "", fmt.Errorf("handleMatch: the call of the Do function (`if %s.do != nil { ... quasigo.Call ... }`) not found", rule)
+	}
+	for _, f := range []string{"reportString", "suggestString"} {
+		if res[f] == "never" && strings.Contains(wkSrc(fset, hm.Body), fp+"."+f+" = ") {
+			res[f] = "sometimes"
+		}
+	}
+	// the variable name a custom filter is applied to
+	cv := wkFindFunc(filters, "", "makeCustomVarFilter")
+	if cv == nil {
+		return "", fmt.Errorf("makeCustomVarFilter not found")
+	}
+	var fl *ast.FuncLit
+	for _, st := range cv.Body.List {
+		if rs, ok := st.(*ast.ReturnStmt); ok && len(rs.Results) == 1 {
+			fl, _ = rs.Results[0].(*ast.FuncLit)
+		}
+	}
+	if fl == nil || len(fl.Type.Params.List) != 1 || len(cv.Type.Params.List) < 2 {
+		return "", fmt.Errorf("makeCustomVarFilter: closure not found")
+	}
+	pn := fl.Type.Params.List[0].Names[0].Name
+	vn := ""
+	for _, f := range cv.Type.Params.List {
+		for _, n := range f.Names {
+			if n.Name == "varname" {
+				vn = n.Name
+			}
+		}
+	}
+	if vn == "" {
+		return "", fmt.Errorf("makeCustomVarFilter: no varname parameter")
+	}
+	res["varname"] = wkStoreBefore(fset, fl.Body.List, pn+".varname = "+vn, pn+".varname", "quasigo.Call(")
+	var rows []string
+	for _, k := range []string{"match", "reportString", "suggestString", "varname"} {
+		rows = append(rows, fmt.Sprintf("(%q%%string, %q%%string)", k, res[k]))
+	}
+	return "(* per-match fields of filterParams: stored in front of every filter / Do() evaluation? *)\nDefinition gen_per_match_stores : list (string * string) := [" + strings.Join(rows, "; ") + "].\n", nil
 }
 
 // wkMentions reports whether the source of n contains the selector `.name`.
